@@ -1,7 +1,7 @@
 """C02 - no access outside the allocated block while within declared capacity (structural part)."""
 from ..rules_vector import Checker
 from ..corpus import FilterRec
-from ..rules_bounds import rule_B1, rule_B3
+from ..rules_bounds import rule_B1, rule_B3, rule_B3u
 from ..rules_layout import rule_P2, rule_P1e
 from ..rules_own import discover_owners, null_writes
 from ._common import run_vector, vector_configs
@@ -12,6 +12,7 @@ def rule(tu, rec):
     ck = Checker(tu, rec, "C02")
     rule_B1(ck, "B1")
     rule_B3(ck, "B3")
+    rule_B3u(ck, "B3u")
     ck2 = Checker(tu, FilterRec(rec, ("P2", "P1e-fit")), "C02")
     rule_P2(ck2, "P2")
     rule_P1e(ck2, "P1e")
